@@ -1,20 +1,49 @@
 PROPS["C04"] = {
     "title": "Field arithmetic is exact modulo 2^255-19 for every representable input",
     "level": "exploration",
-    "technique": "property-based testing (rapid) of raw-limb, reachable-representation and byte-string inputs against a math/big reference, per limb backend",
-    "level_text": "placeholder",
-    "level_note": "placeholder",
-    "rule": "placeholder",
-    "assumptions": ["math/big is correct"],
+    "technique": ("property-based testing (rapid) against a math/big reference: raw-limb inputs anywhere in the documented headroom, "
+                  "reachable representations from generated op programs under a bound-tracking interpreter, byte strings for the "
+                  "decoders; in-package on all four backends (amd64 assembly and portable 64-bit side by side, 32-bit, AVX2 lanes)"),
+    "level_text": ("Generated-input search. Every field operation (Add Sub Neg Mul Square Square2 Pow2k Mul121666 Invert BatchInvert "
+                   "SqrtRatioI InvSqrt ConditionalSelect/Swap/Assign/Negate Set One MinusOne Zero SetBytes SetBytesWide ToBytes Equal "
+                   "IsZero IsNegative) is executed on limb vectors built from a boundary catalogue that reaches the top of the "
+                   "documented headroom (2^54-1 per 51-bit limb; 2^27.752 / 2^26.752 per 26/25-bit limb) and on representations the "
+                   "library produces itself (op programs whose per-register limb bounds are tracked from the documented "
+                   "post-conditions, an operation being applied only when its documented precondition holds); the value of each "
+                   "result, read back limb by limb with the radix formula, must equal the math/big result mod p, the documented "
+                   "output bounds must hold, operands must be unchanged. feMul/feMulGeneric and fePow2k/fePow2kGeneric run side by "
+                   "side on amd64; -tags purego and -tags force32bit run the same checks on the portable and 32-bit code; the AVX2 "
+                   "lanes are driven through newFieldElement2625x4/Split and through the library's own point compositions. A silent "
+                   "word wrap shows up as a wrong value. Does not prove absence of overflow for all inputs."),
+    "level_note": ("Trusted: math/big, verifref field model (self-tested: SqrtRatioM1 is cross-checked in every case against a second, "
+                   "purely mathematical statement of the contract), rapid. Limbs beyond the documented headroom are never generated "
+                   "(ToBytes-based observers excepted: reduce() documents the whole 64-bit range). The vector code documents no lane "
+                   "bounds: lanes are only fed from serial elements in the weakly-reduced range of EdwardsPoint coordinates, from lane "
+                   "outputs, or through the library's own compositions on valid curve points. Without AVX2 the lane tests decide "
+                   "nothing and say so (extra.avx2)."),
+    "rule": ("cases = limb vectors / op programs / byte strings drawn by rapid from catalogue-driven generators (per-limb: 0, 2^w+-e, 2^(w+k)+-e, "
+             "top of headroom, limbs of k*p, reduce carry-in bounds, single bits, 32-bit seams, uniform below any bit-length; per-element: all-max, "
+             "one-hot, special values (0, +-small, +-sqrt(-1), (p-1)/2, 2^k, squares and i*squares, d) re-represented with non-canonical limbs, "
+             "k*p+e); non-trivial = some input limb carries excess bits (>= 2^52 on the 64-bit backends, above its nominal 26/25-bit width on the "
+             "32-bit backend, >= 2^51 or zero for lane inputs), or the radix value is >= p, or a zero / non-residue reaches Invert, BatchInvert or "
+             "SqrtRatioI, or a decoder input is >= p, has bit 255 set, is 512-bit non-uniform or has a wrong length; distinct = FNV-64 of the serialised case"),
+    "assumptions": ["math/big is correct", "verifref.P = 2^255-19 and the RFC 9496 sqrt_ratio_m1 transcription (self-tested, cross-checked per case)",
+                    "the documented limb headroom in field_u64.go / field_u32.go is the contract (inputs beyond it are out of scope)"],
     "units": [{
         "pkg": "internal/field", "configs": ["default", "purego", "force32bit"],
         "tests": {
-            "TestC04Raw": T(20000, 2000000),
-            "TestC04Encode": T(20000, 2000000),
-            "TestC04Sqrt": T(4000, 400000),
-            "TestC04Prog": T(8000, 800000),
-            "TestC04Bytes": T(20000, 2000000),
+            "TestC04Raw": T(24000, 1000000),
+            "TestC04Encode": T(20000, 500000),
+            "TestC04Sqrt": T(6000, 150000),
+            "TestC04Prog": T(16000, 600000),
+            "TestC04Bytes": T(20000, 500000),
             "TestC04Consts": LIST(),
+        },
+    }, {
+        "pkg": "curve", "configs": ["default"],
+        "tests": {
+            "TestC04LaneOps": T(16000, 500000),
+            "TestC04LanePoints": T(4000, 100000),
         },
     }],
 }
